@@ -12,7 +12,7 @@ import json
 from collections import Counter
 
 from mc.checks.c03 import canonical_numbering
-from mc.drivers import bpm, mutate
+from mc.drivers import bpm, ladder, mutate
 from mc.drivers.scenarios import SCENARIOS
 
 
@@ -132,6 +132,34 @@ def oracle(sc, ctx, program):
     return out
 
 
+LADDER_KINDS = ("deladd", "del", "meta", "order")
+
+
+def ladder_judge(case):
+    """The ladder HUGR as built and after every single store mutation of LADDER_KINDS."""
+    out = []
+    for hist, h in mutate.histories(lambda: ladder.build(case), 1, "quick", kinds=LADDER_KINDS):
+        tag = "+".join(m[0] for m in hist) or "built"
+        for sig, msg in check_roundtrip(h, tag):
+            out.append((f"{sig}:ladder-{case[0]}", f"{msg} | history={hist} | ladder={case}"))
+    return out
+
+
+def _ladder_chunk(cases):
+    return [(case, ladder_judge(case)) for case in cases]
+
+
+def run_ladder(tier, col):
+    from mc.engine.core import pmap
+
+    cases = list(ladder.cases_for(tier))
+    for res in pmap(_ladder_chunk, [cases[i::64] for i in range(64)]):
+        for case, fails in res:
+            for sig, msg in fails:
+                col.add(sig, msg, {"ladder": case, "tier": tier})
+    return len(cases)
+
+
 def run(tier: str, seed: int) -> Result:
     global _DEPTH, _TIER
     plan, _DEPTH = PLAN[tier]
@@ -142,15 +170,17 @@ def run(tier: str, seed: int) -> Result:
         case["depth"] = _DEPTH
         case["tier"] = tier
         col.add(sig, msg, case)
+    n_ladder = run_ladder(tier, col)
     cov = {
         "states": r.states,
         "transitions": r.transitions,
         "traces_validated_against_impl": r.transitions,
-        "evaluations": r.complete_programs,
+        "evaluations": r.complete_programs + n_ladder,
         "distinct_nontrivial": r.nontrivial,
         "rule": "every complete builder program of the plan x every store-mutation history up to the depth bound (delete leaf, add "
         "node with attribute-rich ops, order link, delete link, insert fragment, metadata over JSON values, index reuse); "
-        "oracle: load succeeds, same JSON value, same observable structure under order-preserving renumbering",
+        "oracle: load succeeds, same JSON value (type-strict: true/1/1.0 differ), same observable structure under order-preserving "
+        "renumbering; plus the size ladders of mc/drivers/ladder.py, each as built and after every single mutation",
         "samples": r.samples or [{"scenario": "D1", "program": []}],
         "exhaustive": True,
         "plan": plan,
@@ -158,6 +188,8 @@ def run(tier: str, seed: int) -> Result:
         "complete_programs": r.complete_programs,
         "programs_where_a_builder_call_raised": r.builder_raised,
         "feature_counts": r.features,
+        "ladder_cases": n_ladder,
+        "ladder": {"families": sorted(ladder.FAMILIES), "sizes": ladder.SIZES[tier], "caps": ladder.CAPS, "mutations": list(LADDER_KINDS)},
     }
     return Result(cov, col.violations, ["structure is read through public queries only", "runtime_reqs/extension sets compared as sets"])
 
@@ -166,6 +198,8 @@ def replay(case) -> list[Violation]:
     global _DEPTH, _TIER
     _DEPTH = case.get("depth", 1)
     _TIER = case.get("tier", "quick")
+    if "ladder" in case:
+        return [Violation(s, m, case) for s, m in ladder_judge(case["ladder"])]
     sc = SCENARIOS[case["scenario"]]
     ctx = bpm.run(sc, case["program"])
     return [Violation(s, m, case) for s, m in oracle(sc, ctx, case["program"])]
